@@ -716,6 +716,79 @@ def rule_radix_positional_counts(col, facts):
               "the branch that writes `.0` (or removes the point under trim_floats) is chosen on the fraction digit count *before* trailing zeros are trimmed (%d of %d sites): a fraction that rounds to zeros leaves a bare decimal point (`1.`, `10.`) and skips min_significant_digits" % (bad, n), where)
 
 
+def rule_integer_zeros_counted(col, facts):
+    """UNIT-count (positional writers, value >= 1): when the digits written are fewer than the integer has places,
+    the writers fill `bytes[digit_count..leading_digits]` with zeros - those zeros are significant digits
+    (`1000.0` has five).  On every path through that fill, the count handed to min_exact_digits must be built on
+    the fill's upper bound (leading_digits), not on the count of the trimmed digits - otherwise radix 2, `2.0`,
+    min 5 is padded to `10.0000` (six digits) where the decimal sibling writes `2.0000`."""
+    from rules.core import enum_paths, resolve_env
+    R = "UNIT-count"
+    n = 0
+    def find_range(x):
+        if isinstance(x, tuple):
+            if x and x[0] == "agg" and isinstance(x[1], tuple) and len(x[1]) > 1 and str(x[1][1]).endswith("Range") and len(x[2]) == 2:
+                return x
+            for y in x:
+                r = find_range(y)
+                if r:
+                    return r
+        return None
+    def norm(x):
+        if not isinstance(x, tuple):
+            return x
+        if x and x[0] == "cast":
+            return norm(x[1])
+        if x and x[0] == "call" and len(x) >= 3:
+            return ("call", x[1], tuple(norm(y) for y in x[2]))          # without the call-instance number
+        if x and x[0] in ("var", "arg") and len(x) >= 3:
+            return (x[0], x[1])
+        return tuple(norm(y) for y in x)
+    def contains(x, sub):
+        x, sub = norm(x), norm(sub)
+        def walk(y):
+            return y == sub or (isinstance(y, tuple) and any(walk(z) for z in y))
+        return walk(x)
+    for mod in ("algorithm", "compact", "binary"):
+        name = WF + mod + "::write_float_positive_exponent"
+        if not facts.has_fn(name):
+            continue
+        f = facts.fn(name)
+        mins = [(bb, a) for bb, c, a, d, t in f.calls() if callee_name(c) == WF + "shared::min_exact_digits"]
+        fills = []
+        for bb, c, a, d, t in f.calls():
+            if last_seg(callee_name(c)) == "fill" and not any(f.dominates(bm, bb) for bm, _a in mins):
+                rg = find_range(op_expr(f, a[0]))
+                if rg is not None:
+                    fills.append((bb, strip_casts(rg[2][1])))
+        if len(mins) != 1 or len(fills) != 1:
+            from rules.core import ShapeUnknown
+            raise ShapeUnknown("%s: %d min_exact_digits call(s), %d integer zero fill(s)" % (name, len(mins), len(fills)))
+        bbm, am = mins[0]
+        bbf, upper = fills[0]
+        bad = None
+        k = 0
+        for t, atoms, env in enum_paths(f, 0, {bbm}, want_env=True, resolve_atoms=True):
+            if bbf not in env["__blocks__"]:
+                continue
+            k += 1
+            cv = strip_casts(op_expr(f, am[0]))
+            if not (cv[0] in ("var", "arg") and f.defs().get(cv[1])):
+                # not a multiply-assigned local: the expression itself says what is counted
+                if not contains(cv, upper):
+                    bad = show(cv)[:100]
+                continue
+            # the count is a local assigned along the way: one of its assignments on this path must take the
+            # fill's upper bound (`digit_count = leading_digits`)
+            taken = [rvalue_expr(f, rv, 0) for bd, _j, rv, pr in f.defs().get(cv[1], []) if not pr and bd in env["__blocks__"]]
+            if not any(contains(x, upper) for x in taken):
+                bad = "; ".join(show(x)[:40] for x in taken)[:120]
+        n += 1
+        col.check(R, "%s::write_float_positive_exponent:integer-zeros-are-digits" % mod, k > 0 and bad is None,
+                  "on a path that fills the integer with zeros up to `%s`, min_exact_digits is handed `%s`: the filled zeros are not counted, so min_significant_digits pads too much (radix 2, 2.0, min 5 -> `10.0000`)" % (show(upper)[:60], bad or "no such path"), f.loc())
+    col.floor(R, "positional writers for values >= 1", n, 1)
+
+
 def rule_padding_not_disabled_by_trim(col, facts):
     """MPT-pad: `trim_floats` only removes the `.0` of integral outputs; it must not switch off the zero padding up
     to min_significant_digits for everything else.  For every padding site (a fill(b'0') after min_exact_digits)
@@ -758,6 +831,7 @@ def run(col, configs, tier):
         guarded(col, rule_point_zero_counted, facts)
         guarded(col, rule_decimal_tie, facts)
         guarded(col, rule_padding_not_disabled_by_trim, facts)
+        guarded_soft(col, rule_integer_zeros_counted, facts)
         guarded(col, rule_cut_exposes_no_zeros, facts)
         guarded(col, rule_radix_positional_counts, facts)
         guarded_soft(col, X.rule_incremented_digit_in_range, facts)
